@@ -93,3 +93,35 @@ Theorem C13_prefix_any_time :
     exists rest, specQ c (ins l) = projQ (emitted l) ++ rest.
 Proof. exact prefix_any_time. Qed.
 Print Assumptions C13_prefix_any_time.
+
+(** Cancel-safe class, EVERY schedule, EVERY reachable state (not only quiescent ones): nothing
+    was dropped with a cancelled future.  (So a drop observed on the implementation in a
+    configuration of this class is outside the model, whatever made the future suspend — e.g.
+    tokio's cooperative budget running out at an await point that holds an item.) *)
+Theorem C13_nothing_dropped_safe :
+  forall cs xs tr s', safe_shape cs -> run_trace (init cs xs) tr = Some s' -> lost_of s' = [].
+Proof. exact nothing_dropped_safe. Qed.
+Print Assumptions C13_nothing_dropped_safe.
+
+(** In a cancel-safe layer Buffer's recv branch cannot win between the start and the end of a
+    hand-over: such a step does not exist in the model. *)
+Theorem C13_handover_not_cancellable_safe :
+  forall c l y x, safe_cfg c -> tk l = TSel (NHand y) -> lstep c l (Recv x) = None.
+Proof. exact handover_not_cancellable_safe. Qed.
+Print Assumptions C13_handover_not_cancellable_safe.
+
+(** Any layer, any step: the only step that loses an item is a [Recv] while the composed
+    [next()] holds an item whose [second.process] can suspend. *)
+Theorem C13_loss_only_by_cancelled_handover :
+  forall c l a l', lstep c l a = Some l' -> lost l' <> lost l ->
+    exists x y p1 p2, a = Recv x /\ tk l = TSel (NHand y) /\ c = Comp p1 p2 /\ slowb p2 y = true
+                      /\ lost l' = lost l ++ [y].
+Proof. exact loss_only_by_cancelled_handover. Qed.
+Print Assumptions C13_loss_only_by_cancelled_handover.
+
+(** A [second.process] that passes a tokio resource subject to the cooperative budget counts as
+    suspending (outside the cancel-safe class). *)
+Theorem C13_budgeted_process_is_suspending :
+  forall p y, bproc p = true -> slowb p y = true.
+Proof. exact budgeted_process_is_suspending. Qed.
+Print Assumptions C13_budgeted_process_is_suspending.
